@@ -264,3 +264,36 @@ pub fn foreign_texts(ty: Ty) -> Vec<&'static str> {
         ],
     }
 }
+
+/// The human-readable form the property documents, rendered independently of
+/// the library (None where the statement names no fixed layout).
+pub fn expected_text(ty: Ty, raw: i64) -> Option<String> {
+    const DAY: i64 = 86_400_000_000;
+    let time = |us: i64| -> String {
+        format!("{:02}:{:02}:{:02}.{:06}", us / 3_600_000_000, us / 60_000_000 % 60, us / 1_000_000 % 60, us % 1_000_000)
+    };
+    let date = |days: i64| -> String {
+        let (y, m, d) = civil_from_days(days);
+        format!("{:04}-{:02}-{:02}", y, m, d)
+    };
+    Some(match ty {
+        Ty::Date => date(raw),
+        Ty::Time => time(raw),
+        Ty::Timestamp => format!("{} {}", date(raw.div_euclid(DAY)), time(raw.rem_euclid(DAY))),
+        Ty::IntervalYM => {
+            let m = raw.unsigned_abs();
+            format!("{}{:04}-{:02}", if raw < 0 { '-' } else { '+' }, m / 12, m % 12)
+        }
+        Ty::IntervalDT => {
+            let us = raw.unsigned_abs();
+            let d = us / DAY as u64;
+            let rest = (us % DAY as u64) as i64;
+            if d < 32 {
+                format!("{}{:02} {}", if raw < 0 { '-' } else { '+' }, d, time(rest))
+            } else {
+                format!("{}{} {}", if raw < 0 { '-' } else { '+' }, d, time(rest))
+            }
+        }
+        Ty::Oracle => return None,
+    })
+}
